@@ -883,3 +883,77 @@ func lowerTable(ruleTexts []string, obj *AV) string {
 	}
 	return sb.String()
 }
+
+// poisonObjects: objects for earlier calls on the same evaluator: a scalar in the middle of a path (recovered panic),
+// everything absent, everything undecidable.
+func poisonObjects(r *RNG, root *Node) []map[string]interface{} {
+	if !r.Chance(4, 10) {
+		return nil
+	}
+	var ls []*Node
+	root.Leaves(&ls)
+	var out []map[string]interface{}
+	n := 1 + r.Intn(2)
+	for i := 0; i < n; i++ {
+		switch r.Intn(3) {
+		case 0:
+			o := avObj()
+			lf := pick(r, ls)
+			cur := o
+			cut := 0
+			if len(lf.Path) > 1 {
+				cut = r.Intn(len(lf.Path) - 1)
+			}
+			for j := 0; j < cut; j++ {
+				nx := avObj()
+				nx.Set("x", avInt(5))
+				cur.Set(lf.Path[j], nx)
+				cur = nx
+			}
+			cur.Set(lf.Path[cut], pick(r, []*AV{avStr("scalar"), avInt(5), {K: AVBool, B: true}}))
+			out = append(out, o.GoMap())
+		case 1:
+			out = append(out, map[string]interface{}{})
+		default:
+			out = append(out, genObject(r, root, ObjOpts{AbsentPct: 30, NilPct: 10, NullParent: 10, NonObjMid: 30}).GoMap())
+		}
+	}
+	return out
+}
+
+// relatedText perturbs a rule text the way a careless cache key would identify it with the original:
+// case of one letter, amount/kind of white space.
+func relatedText(r *RNG, s string) string {
+	rs := []rune(s)
+	if len(rs) == 0 {
+		return s
+	}
+	switch r.Intn(4) {
+	case 0:
+		for tries := 0; tries < 20; tries++ {
+			i := r.Intn(len(rs))
+			c := rs[i]
+			switch {
+			case c >= 'a' && c <= 'z':
+				rs[i] = c - 32
+				return string(rs)
+			case c >= 'A' && c <= 'Z':
+				rs[i] = c + 32
+				return string(rs)
+			}
+		}
+	case 1:
+		for tries := 0; tries < 20; tries++ {
+			i := r.Intn(len(rs))
+			if rs[i] == ' ' {
+				ins := pick(r, []string{" ", "\t", "\n", "  "})
+				return string(rs[:i]) + ins + string(rs[i:])
+			}
+		}
+	case 2:
+		return strings.ToUpper(s)
+	default:
+		return strings.ToLower(s)
+	}
+	return s
+}
